@@ -94,6 +94,20 @@ def gen(seed, tier):
         for o in ({"U": 1, "R": 1}, {"R": 1}, {"U": 1}, {}):
             segs = [seg(0, [g.f_df11(icao, ca=5)]), seg(0, [g.f_df17(icao, me)]), seg(0, [g.f_df17(icao, me)])]
             cases.append(H("C09-k%d-%s" % (k, "".join(sorted(o)) or "n"), dict(o), segs))
+    # a rate taken from a Comm-B BDS 6,0 reply (-R) is not kept when a later velocity squitter says "no rate information"
+    # (rate field 0, either sign bit); nor are speed/track kept when a component field is 0
+    for i in range(16 if tier == "quick" else 160):
+        icao = r.choice(ICAOS)
+        o = r.choice([{"R": 1}, {"R": 1}, {"R": 1, "U": 1}])
+        first = g.f_df17(icao, me_velocity(1, r.randint(0, 1), r.randint(1, 1023), r.randint(0, 1), r.randint(1, 1023), r.randint(0, 1), r.randint(0, 1), r.randint(2, 511)))
+        mb = bds60((r.randint(0, 1), r.randint(1, 1023)), r.randint(1, 500), r.randint(1, 250), (r.randint(0, 1), r.randint(1, 200)), (r.randint(0, 1), r.randint(1, 200)))
+        reply = g.f_long(r.choice([20, 21]), icao, None, mb)
+        zero_what = i % 3
+        last = g.f_df17(icao, me_velocity(r.choice([1, 2]), r.randint(0, 1), 0 if zero_what == 1 else r.randint(1, 1023), r.randint(0, 1),
+                                          0 if zero_what == 2 else r.randint(1, 1023), r.randint(0, 1), r.randint(0, 1),
+                                          0 if zero_what == 0 else r.randint(1, 511)))
+        segs = ([seg(0, [first])] if i % 2 else []) + [seg(0, [g.f_df11(icao, ca=5)]), seg(0, [reply]), seg(0, [last])]
+        cases.append(H("C09-b%d" % i, dict(o), segs))
     # through the pipeline: first and n-th frame, +/-U
     for i in range(150 if tier == "quick" else 1500):
         icao = r.choice(ICAOS)
